@@ -78,6 +78,10 @@ func (fc *FuncCtx) load(fr *Frame, st *State, lv *LVal, pos token.Pos) Val {
 		if s == nil {
 			unsupp("global %s of type %s", lv.Global.Name(), lv.Typ)
 		}
+		if cv := fc.p.constGlobal(lv.Global); cv != nil {
+			fc.note("package variable " + lv.Global.Name() + " read as a constant (initialised with a constant, no writer in the repository)")
+			return Val{T: cv}
+		}
 		name := "G:" + lv.Global.Pkg.Pkg.Path() + "." + lv.Global.Name()
 		fc.p.registerHeap(name, s)
 		v := st.H(fc.p, name)
@@ -150,6 +154,13 @@ func (fc *FuncCtx) execInstr(fr *Frame, st *State, ins ssa.Instruction) {
 			return
 		}
 		ref := fc.newRef(st)
+		for _, g := range fc.p.ghostZero[typeKey(et)] {
+			h := "GH:" + g[0]
+			fc.p.registerHeap(h, ArraySort(SInt, SInt))
+			var n int64
+			fmt.Sscan(g[1], &n)
+			st.setH(h, Store(st.H(fc.p, h), ref, IntLit(n)))
+		}
 		switch u := et.Underlying().(type) {
 		case *types.Struct:
 			fc.zeroStruct(st, ref, et)
@@ -360,6 +371,51 @@ func (fc *FuncCtx) execInstr(fr *Frame, st *State, ins ssa.Instruction) {
 	default:
 		unsupp("instruction %T (%s) at %s", ins, ins, fc.p.pos(ins.Pos()))
 	}
+}
+
+// constGlobal: the value of a package-level variable of basic type that is
+// initialised with a constant in its package initialiser and never written
+// elsewhere in the repository (syntactic scan); nil otherwise.
+func (p *Program) constGlobal(g *ssa.Global) *Term {
+	if p.constGlobals == nil {
+		p.constGlobals = map[*ssa.Global]*Term{}
+		written := map[*ssa.Global]int{}
+		initVal := map[*ssa.Global]*ssa.Const{}
+		scan := func(f *ssa.Function, isInit bool) {
+			for _, b := range f.Blocks {
+				for _, ins := range b.Instrs {
+					if stt, ok := ins.(*ssa.Store); ok {
+						if gg, ok := stt.Addr.(*ssa.Global); ok {
+							if c, isC := stt.Val.(*ssa.Const); isC && isInit {
+								initVal[gg] = c
+								written[gg] += 0
+							} else {
+								written[gg]++
+							}
+						}
+					}
+				}
+			}
+		}
+		for _, f := range p.funcs {
+			scan(f, false)
+		}
+		for path, sp := range p.spkgs {
+			if strings.HasPrefix(path, p.module) {
+				if in := sp.Func("init"); in != nil {
+					scan(in, true)
+				}
+			}
+		}
+		for gg, c := range initVal {
+			if written[gg] == 0 && c.Value != nil {
+				if _, ok := gg.Type().Underlying().(*types.Pointer).Elem().Underlying().(*types.Basic); ok {
+					p.constGlobals[gg] = constTerm(c.Value, gg.Type().Underlying().(*types.Pointer).Elem())
+				}
+			}
+		}
+	}
+	return p.constGlobals[g]
 }
 
 func (fc *FuncCtx) ghostAdd(st *State, name string, n int64) {
